@@ -185,7 +185,7 @@ def c17(run):
                                     encmax=run.q(20000, 70000)), name='mc', timeout=run.q(300, 1500))
     # generation: wider exponent set, emitted from the initial states only (no Next exploration needed)
     g = run.mc('MCFraming', framing_cfg(run.q([0, 8, 9, 10, 16], [0, 1, 8, 9, 10, 13, 16]), [0, 1, 191, 192, 8383, 8384, 70000],
-                                        2, tags + [60], 'GenFraming GenWriter GenHdr', fills=(1073741824,), encmax=10),
+                                        2, tags + [60, 0, 15, 16, 22, 39], 'GenFraming GenWriter GenHdr', fills=(1073741824,), encmax=10),
                name='gen', count=False, timeout=900)
     cases = g.cases
     if run.replay and run.replay.get('source_case'):
